@@ -1,6 +1,7 @@
 (* Props/C04.v — assertions are honoured only inside their validity windows.
    Times are whole seconds (the code truncates fractions before comparing). *)
 From PV Require Import Lib.Base Model.Status Model.Response Model.C04Kinds Proofs.Response_lemmas Proofs.C04_lemmas Proofs.C04_kinds.
+From PV Require Import Model.C04Entry Proofs.C04_entry.
 From PV Require Model.TimeUtil Proofs.TimeUtil_lemmas.
 Open Scope Z_scope.
 
@@ -191,6 +192,112 @@ Example C04_witness_kinds :
   accepted (KStatus SManageNameId) BPost (cfgT 1000000 0) (logoutT 1086399) = true.
 Proof. vm_compute. repeat split; reflexivity. Qed.
 Print Assumptions C04_witness_kinds.
+
+(* ---- the OTHER public ways in (Model/C04Entry.v): response_factory, authn_response, attribute_response and the classes
+   AuthnResponse / AttributeResponse / AuthnQueryResponse / ArtifactResponse / AuthzResponse built directly, then
+   .loads(..).verify().  [args] is what the caller wrote (an argument given or left out), [flags_of] what the constructor
+   chain of that entry point stores, [asked] what the call means by the def lines' defaults. ---- *)
+
+(* every constructor passes on exactly what the caller wrote; `test` is on only when a caller names test=True on an entry
+   point that has the parameter; the allowance is the caller's (0 / left out: conf.accepted_time_diff for the three functions) *)
+Theorem C04_entry_points_pass_flags_on :
+  forall e cf a,
+    flags_of e cf a = asked e cf a /\
+    (f_test (flags_of e cf a) = true -> has_test e = true /\ a_test a = Some true) /\
+    f_slack (flags_of e cf a) =
+      match a_slack a with
+      | Some t => if t =? 0 then (if reads_conf e then dflt (cf_time_diff cf) 0 else 0) else t
+      | None => if reads_conf e then dflt (cf_time_diff cf) 0 else 0
+      end.
+Proof. intros e cf a. split; [exact (flags_passed_on e cf a)|]. split; [exact (test_only_when_named e cf a)|exact (slack_is_the_callers e cf a)]. Qed.
+Print Assumptions C04_entry_points_pass_flags_on.
+
+(* every entry point computes verify of the SAME flags the caller gave *)
+Theorem C04_entry_points_verify_the_callers_flags :
+  forall e cf nowv a r,
+    entry_verify e cf nowv a r =
+    object_verify (ctx_of e) (match e with EFactory => true | _ => false end) (cfg_of cf nowv (asked e cf a)) r.
+Proof. exact entry_verify_asked. Qed.
+Print Assumptions C04_entry_points_verify_the_callers_flags.
+
+(* C04_reject_outside through every entry point, for every way of writing the call (so: every combination of asynchop /
+   allow_unsolicited, given or left out): accepted => every window of the context holds at the clock value and at the
+   allowance the caller gave — unless the caller named test=True where that parameter exists.
+   ctx_windows_ok: authn = windows_ok (all of C04_reject_outside); attribute / authz / artifact = IssueInstant, every bearer
+   bound, Conditions; authn query = IssueInstant, every bearer bound (the library's contexts, as in C04_query_kinds) *)
+Theorem C04_reject_outside_every_entry_point :
+  forall e cf nowv a r s,
+    entry_verify e cf nowv a r = Ok (Some s) -> (has_test e = true -> a_test a <> Some true) ->
+    ctx_windows_ok (ctx_of e) nowv (f_slack (asked e cf a)) r.
+Proof. exact entry_windows. Qed.
+Print Assumptions C04_reject_outside_every_entry_point.
+
+Theorem C04_reject_outside_any_switches :
+  forall e cf nowv a r asy uns s,
+    entry_verify e cf nowv {| a_return_addrs := a_return_addrs a; a_outstanding := a_outstanding a; a_slack := a_slack a;
+                             a_asynch := asy; a_unsol := uns; a_was := a_was a; a_test := None |} r = Ok (Some s) ->
+    ctx_windows_ok (ctx_of e) nowv (f_slack (asked e cf a)) r.
+Proof. exact entry_windows_any_switches. Qed.
+Print Assumptions C04_reject_outside_any_switches.
+
+(* non-vacuity: the edges through the factory, the function and the class; all switch combinations reject a Conditions
+   NotBefore 700 s ahead; naming test=True on the class accepts it (lax), on the factory it cannot be asked *)
+Definition confT := {| cf_entity_id := me; cf_time_diff := Some 5 |}.
+Definition argsT (slackv : option Z) (asy uns test : option bool) :=
+  {| a_return_addrs := Some [acs]; a_outstanding := Some [(s2l "req-1", s2l "/home")]; a_slack := slackv;
+     a_asynch := asy; a_unsol := uns; a_was := None; a_test := test |}.
+Example C04_witness_entry_points :
+  entry_accepts EFactory confT 1000305 (argsT None None None None) (respT None) = true /\      (* allowance from conf: 5 *)
+  entry_accepts EFactory confT 1000306 (argsT None None None None) (respT None) = false /\
+  entry_accepts EFactory confT 1000306 (argsT (Some 6) None None None) (respT None) = true /\
+  entry_accepts EAuthnCls confT 1000300 (argsT None None None None) (respT None) = true /\     (* the class does not read conf *)
+  entry_accepts EAuthnCls confT 1000301 (argsT None None None None) (respT None) = false /\
+  forallb (fun asy => forallb (fun uns => forallb (fun e =>
+     negb (entry_accepts e confT 999000 (argsT None asy uns None) (respT None)))
+     [EFactory; EAuthnFn; EAuthnCls; EAttrFn; EAttrCls; EArtifactCls; EAuthzCls])
+     [None; Some true; Some false]) [None; Some true; Some false] = true /\
+  entry_accepts EAuthnCls confT 999000 (argsT None None None (Some true)) (respT None) = true /\      (* lax, asked by name *)
+  entry_accepts EAttrCls confT 999000 (argsT None None None (Some true)) (respT None) = true /\
+  entry_accepts EFactory confT 999000 (argsT None None None (Some true)) (respT None) = false /\      (* no such parameter *)
+  entry_accepts EAuthzCls confT 999000 (argsT None None None (Some true)) (respT None) = false /\
+  entry_accepts EAuthnQueryCls confT 999000 (argsT None None None None) (respT None) = true /\        (* Conditions not consulted there *)
+  entry_accepts EAuthnQueryCls confT 1003900 (argsT None None None None) (respT None) = false /\       (* its bearer bound *)
+  entry_accepts EAttrCls confT 1000000 (argsT None None None None) (respT (Some 5)) = true /\          (* no session check there *)
+  entry_accepts EAuthnCls confT 1000000 (argsT None None None None) (respT (Some 5)) = false.
+Proof. vm_compute. repeat split; reflexivity. Qed.
+Print Assumptions C04_witness_entry_points.
+
+(* ---- the time zone of the PROCESS ----
+   A zone is its offset from UTC in seconds; localtime zone t = gmtime (t + zone), mktime zone c = timegm c - zone.
+   Every reading the library takes is gmtime / timegm based (utc_now = timegm (gmtime now), str_to_time =
+   gmtime (timegm (strptime ..)), tuple order = instant order by C04_tuple_order_is_instant_order): no offset enters,
+   whatever the zone *)
+Theorem C04_no_zone_offset_enters :
+  forall zone nowv,
+    utc_now zone nowv = nowv /\ mktime zone (localtime zone nowv) = nowv /\
+    (forall s c, Model.TimeUtil.str_to_time s = Ok (Some c) ->
+       Model.TimeUtil.before nowv (Model.TimeUtil.AText s) = Ok (utc_now zone nowv <=? Model.TimeUtil.timegm c) /\
+       Model.TimeUtil.after nowv (Model.TimeUtil.AText s) = Ok (negb (utc_now zone nowv <=? Model.TimeUtil.timegm c))).
+Proof. exact no_zone_enters. Qed.
+Print Assumptions C04_no_zone_offset_enters.
+
+(* ... which is NOT so for a comparison that mixes mktime(gmtime()) with timegm: the full statement
+     forall zone now t, (mktime zone (gmtime now) <=? t) = (now <=? t)
+   fails — in Tokyo a bound expired two seconds ago still passes, in New York one with hours to go is refused *)
+Theorem C04_mktime_gmtime_against_timegm_refuted :
+  (forall zone nowv, utc_now_mktime zone nowv = nowv - zone) /\
+  exists zone nowv s c, Model.TimeUtil.str_to_time s = Ok (Some c) /\
+    (utc_now_mktime zone nowv <=? Model.TimeUtil.timegm c) = true /\ (nowv <=? Model.TimeUtil.timegm c) = false.
+Proof.
+  split; [exact mixing_mktime_with_timegm|].
+  exists 32400, 1790000002, (s2l "2026-09-21T14:13:20Z"), (Model.TimeUtil.gmtime 1790000000).
+  vm_compute. repeat split; reflexivity.
+Qed.
+Print Assumptions C04_mktime_gmtime_against_timegm_refuted.
+Theorem C04_mktime_gmtime_against_timegm_partial :
+  forall nowv t, (utc_now_mktime 0 nowv <=? t) = (nowv <=? t).
+Proof. intros nowv t. rewrite mixing_mktime_with_timegm, Z.sub_0_r. reflexivity. Qed.
+Print Assumptions C04_mktime_gmtime_against_timegm_partial.
 
 (* ==== the TEXT of a time stamp (Model/TimeUtil.v, Proofs/TimeUtil_lemmas.v) ====================================
    Everything above takes instants (Z).  The library starts from attribute texts: time_util.str_to_time
